@@ -2,6 +2,7 @@ import ErgoVerif.Lemmas.Ref
 import ErgoVerif.Model.Registry
 import ErgoVerif.Model.RegRace
 import ErgoVerif.Generated.RegRace
+import ErgoVerif.Generated.Unreg
 /-!
 # C06 — registry integrity: unique identities, complete release on termination
 
@@ -68,6 +69,10 @@ open ErgoVerif.Registry in
 /-- non-vacuity: three racing claimants, one winner -/
 example : ∃ c, Reach c ∧ c.n = 3 ∧ c.okEver = 1 ∧ c.err = 2 :=
   ⟨_, ⟨[.newClaim, .newClaim, .newClaim, .cas, .cas, .store, .cas, .store, .assign, .store], rfl⟩, by decide⟩
+
+/-- a terminated process appears in no relation as requester: unregisterProcess calls CleanupConsumer (regenerated; the
+repaired D16 — the release histories of the harness query the node's TargetManager after every termination) -/
+theorem C06_code_shape_requester_side : ErgoVerif.Gen.Unreg.cleansRequesterSide = true := by decide
 
 /-! ### RegisterName by a third party racing with the termination of the process -/
 section RegRace
